@@ -715,6 +715,47 @@ func c16Envelope(c *Check, id string) {
 			}
 		})
 		c.Report(okMeta, id, "UNWRAP-READ/metadata", unwrapFn, nmsg.Pos(), "unwrap", "the rebuilt message's metadata is the envelope's Metadata")
+		// … and nothing else: no entry is added to, or removed from, the rebuilt message's metadata
+		extra := false
+		isRebuilt := func(v ssa.Value) bool {
+			return AllOrigins(v, func(o ssa.Value) bool {
+				if u, ok := o.(*ssa.UnOp); ok {
+					if g, base := FieldOf(u.X); g != nil && g.Name() == "Metadata" && sameValue(base, CallValue(nmsg)) {
+						return true
+					}
+				}
+				return false
+			})
+		}
+		AllInstrs(unwrapFn, func(in ssa.Instruction) {
+			switch x := in.(type) {
+			case *ssa.MapUpdate:
+				if isRebuilt(x.Map) || isEnvField("Metadata")(x.Map) {
+					extra = true
+				}
+			case *ssa.Call:
+				if IsCallTo(x, nMetaSet) && (isRebuilt(Receiver(x)) || isEnvField("Metadata")(Receiver(x))) {
+					extra = true
+				}
+				if args, isDel := IsBuiltinCall(x, "delete"); isDel && (isRebuilt(args[0]) || isEnvField("Metadata")(args[0])) {
+					extra = true
+				}
+			}
+		})
+		nStores := 0
+		AllInstrs(unwrapFn, func(in ssa.Instruction) {
+			if stv, ok := in.(*ssa.Store); ok {
+				if g, base := FieldOf(stv.Addr); g != nil && g.Name() == "Metadata" && sameValue(base, CallValue(nmsg)) {
+					nStores++
+					for _, ret := range Returns(unwrapFn) {
+						if len(ret.Results) > 1 && !RetNil(ret, 1) && !Dominates(unwrapFn, stv, ret) {
+							extra = true
+						}
+					}
+				}
+			}
+		})
+		c.Report(!extra && nStores == 1, id, "UNWRAP-METADATA-EXACT", unwrapFn, nmsg.Pos(), "unwrap", "the envelope's metadata is assigned once, unconditionally, and no entry is added or removed (nothing of the carrier message leaks into the forwarded one)")
 		for ret, vals := range ReturnValues(unwrapFn, 1) {
 			for _, v := range vals {
 				if !IsNilConst(v) {
